@@ -288,8 +288,14 @@ def check_pair(seedt, ctx):
         ctx.case((tuple(_txt(ops1)), tuple(_txt(ops2)), method, kind == "copy"), ops1 != ops2,
                  {"circuit1": _txt(ops1), "circuit2": _txt(ops2), "method": method} if ctx.evaluations % 300 == 0 else None)
         try:
+            import time as _time
+            t0 = _time.time()
             a12 = bool(c1.compare(c2, method=method))
             a21 = bool(c2.compare(c1, method=method))
+            if method.startswith("GED") and _time.time() - t0 > 4.0:
+                # graphiq gives its exact GED search a 10 s wall-clock budget; near it the answer is load dependent
+                ctx.count("compare:GED_slow_inconclusive")
+                continue
         except Exception as e:
             ctx.violation("compare_raises", case, {"method": method, "exception": f"{type(e).__name__}: {e}"[:300]}, key=f"compare_exc:{method}:{type(e).__name__}")
             continue
